@@ -26,6 +26,7 @@
 #include "scientificinfo.h"
 
 #define CPCACONVERGENCE 1e-18
+#define CPCAMAXITERATIONS 50000 /* upper bound of iterations for one component (two nearly equal eigenvalues need ~1/gap of them) */
 
 /**
  * CPCA model data structure.
